@@ -1,0 +1,22 @@
+//go:build !verif
+// +build !verif
+
+package runtime
+
+// Verification hooks (see the verif build tag).  Without the tag they are empty
+// and get inlined away.
+
+const (
+	verifEvSpawn = iota
+	verifEvStart
+	verifEvExit
+	verifEvBeforeLock
+	verifEvAfterUnlock
+	verifEvBeforeSend
+	verifEvAfterSend
+	verifEvBeforeRecv
+	verifEvAfterRecv
+	verifEvCloseChan
+)
+
+func verifSched(ev int, target *Thread) {}
